@@ -4,7 +4,7 @@
 From Coq Require Import NArith Bool.
 From MZ.lib Require Import Arr Mach.
 From MZ.model Require Import InflateCore.
-From MZ.proofs Require Import InflateBasic.
+From MZ.proofs Require Import InflateBasic InflateFrame3.
 Local Open Scope N_scope.
 
 Theorem C05_bad_geometry_is_param_error :
@@ -27,6 +27,18 @@ Theorem C05_failure_is_absorbing :
     /\ d_num_bits r' = d_num_bits r
     /\ d_bit_buf r' = N.land (d_bit_buf r) (N.ones (d_num_bits r)).
 Proof. exact decompress_failure_absorbing. Qed.
+
+(* counters within bounds on every normal return *)
+Theorem C05_counts_within_bounds :
+  forall r input o out_pos out_max flags res,
+  alen o <= USIZE_MAX ->
+  decompress r input o out_pos out_max flags = Ret res ->
+  cr_in res <= N.of_nat (length input) /\ cr_out res <= N.min out_max (alen o - out_pos).
+Proof.
+  intros r input o out_pos out_max flags res H1 H2.
+  destruct (decompress_frame r input o out_pos out_max flags res H1 H2) as (A & B & _).
+  split; assumption.
+Qed.
 
 (* non-vacuity: a non-power-of-two ring is bad geometry; a failed decoder exists *)
 Example C05_geometry_example : geometry_ok (amake 3 0) 0 0 = false. Proof. reflexivity. Qed.
